@@ -68,16 +68,24 @@ class Buffer(NamedUIDObject):
         self._unloading_tasks[task] = quantity
         # the buffer is unloaded at the task start time
         # append a new level level and a new level change time
-        self._level_changes_time.append(z3.Int(f"{self.name}_sc_time_{task.name}"))
-        self._buffer_levels.append(z3.Int(f"{self.name}_level_{task.name}"))
+        self._append_level_change(task)
 
     def add_loading_task(self, task, quantity) -> None:
         # store quantity
         self._loading_tasks[task] = quantity
         # the buffer is loaded at the task completion time
         # append a new level level and a new level change time
-        self._level_changes_time.append(z3.Int(f"{self.name}_sc_time_{task.name}"))
-        self._buffer_levels.append(z3.Int(f"{self.name}_level_{task.name}"))
+        self._append_level_change(task)
+
+    def _append_level_change(self, task) -> None:
+        """one more level change: a new change time and a new level. The names carry the
+        rank of the change, so that a task that both unloads and loads the buffer gets
+        two distinct pairs of variables"""
+        rank = len(self._level_changes_time) + 1
+        self._level_changes_time.append(
+            z3.Int(f"{self.name}_sc_time_{task.name}_{rank}")
+        )
+        self._buffer_levels.append(z3.Int(f"{self.name}_level_{task.name}_{rank}"))
 
 
 class NonConcurrentBuffer(Buffer):
